@@ -90,6 +90,12 @@ def targeted_discs(rng):
     out.append(("table-holes", G.Disc([G.Partition([G.Volume("V0", [G.SampleFile("A0", W(rng, 20))]), G.Volume("V1", [G.SampleFile("A1", W(rng, 20))]),
                                                      G.Volume("V3", [G.SampleFile("A3", W(rng, 20))]), G.Volume("V9", [G.SampleFile("A9", W(rng, 20))])], sectors=16, slots=[0, 1, 3, 9]),
                                         G.Partition([G.Volume("W4", [G.SampleFile("B4", W(rng, 20))])], sectors=10, slots=[4])])))
+    # sibling volumes of one name, with the halves of a pair and equal sample names spread over them (S78):
+    # nothing pairs or collapses across directories
+    out.append(("same-named-volumes", G.Disc([G.Partition([G.Volume("DRUMS", [G.SampleFile("TOM-L", W(rng, 40)), G.SampleFile("KICK", W(rng, 30)), G.SampleFile("FX L", W(rng, 20)), G.SampleFile("FX R", W(rng, 20))]),
+                                                            G.Volume("DRUMS", [G.SampleFile("TOM-R", W(rng, 40)), G.SampleFile("KICK", W(rng, 31)), G.SampleFile("FX L", W(rng, 22)), G.SampleFile("FX R", W(rng, 22))]),
+                                                            G.Volume("DRUMS", [G.SampleFile("KICK", W(rng, 32))])], sectors=24),
+                                               G.Partition([G.Volume("DRUMS", [G.SampleFile("TOM-R", W(rng, 41))])], sectors=10)])))
     # a pair, both orders, equal lengths that fill a sector
     out.append(("pair", G.Disc([G.Partition([G.Volume("ST", [G.SampleFile("PAD -R", W(rng, 4026)), G.SampleFile("PAD -L", W(rng, 4026)), G.SampleFile("PADX", W(rng, 7))])], sectors=16)])))
     return out
@@ -136,7 +142,7 @@ def run(ctx, rep: Report, deep: bool = False):
         rep.families["akai-e2e"] = {"cases": len(cases), "disagreements": bad}
         if cases:
             rep.sample({"family": "akai-e2e", "op": cases[0].op, "result": cases[0].impl[:300]})
-    rep.required_features = ["images", "head_not_lowest_chains", "exact_fill_files", "dir_run", "dir_chain", "targeted_pair", "targeted_exact-fill", "targeted_big-directory"]
+    rep.required_features = ["images", "head_not_lowest_chains", "exact_fill_files", "dir_run", "dir_chain", "targeted_pair", "targeted_exact-fill", "targeted_big-directory", "targeted_same-named-volumes"]
 
 
 def search(ctx, rep: Report):
